@@ -77,8 +77,6 @@ mut("c04-helper-ok", "C04", FW, "void mj_step2(const mjModel* m, mjData* d) {\n 
 mut("c05-double-time", "C05", FW, "  // advance time\n  d->time += m->opt.timestep;\n", "  // advance time\n  d->time += m->opt.timestep;\n  if (m->nplugin) d->time += m->opt.timestep;\n", "rule=R-ONCE construct=mj_advance:time")
 mut("c05-tableau", "C05", FW, "  1.0/6.0, 1.0/3.0, 1.0/3.0, 1.0/6.0", "  1.0/6.0, 1.0/3.0, 1.0/6.0, 1.0/3.0", "rule=R-CONST")
 mut("c05-tableau-ok", "C05", FW, "  1.0/6.0, 1.0/3.0, 1.0/3.0, 1.0/6.0", "  0.5/3.0, 2.0/6.0, 1.0/3.0, 1.0/6.0", None)
-mut("c05-raw-act", "C05", FW, "        d->act[j] = mj_nextActivation(m, d, i, j, mj_actuatorDisabled(m, i) ? 0 : act_dot[j]);", "        d->act[j] += m->opt.timestep * act_dot[j] + 0*mj_nextActivation(m, d, i, j, 0);",
-    None)  # compound projection form is accepted by design (documented weakness): kept as a control
 mut("c05-raw-act2", "C05", FW, "        d->act[j] = mj_nextActivation(m, d, i, j, mj_actuatorDisabled(m, i) ? 0 : act_dot[j]);", "        d->act[j] = act_dot[j] * m->opt.timestep;", "rule=R-WHO-WRITES construct=mj_advance:store:raw")
 mut("c05-no-restore", "C05", FW, "  // reset state and time\n  d->time = time;\n", "  // reset state and time\n", "rule=R-ONCE construct=mj_RungeKutta:time-restored")
 mut("c05-drop-case", "C05", SU, "      case mjJNT_HINGE:\n      case mjJNT_SLIDE:\n        // scalar update: same for rotation and translation", "      case mjJNT_HINGE:\n        // scalar update: same for rotation and translation",
@@ -88,6 +86,33 @@ mut("c09-drop-flag", "C09", IN, "    if (!mjDISABLED(mjDSBL_EULERDAMP) && !mjDIS
 mut("c09-bias-flag", "C09", IN, "    mjd_smooth_vel(m, d, /* flg_bias = */ 1);\n\n    // gather qLU", "    mjd_smooth_vel(m, d, /* flg_bias = */ 0);\n\n    // gather qLU", "rule=R-SIBLING-GUARD construct=IMPLICIT:calls")
 mut("c09-sign", "C09", IN, "    mju_addToScl(d->qLU, d->qDeriv, -m->opt.timestep, m->nD);", "    mju_addToScl(d->qLU, d->qDeriv, m->opt.timestep, m->nD);", "rule=R-SIBLING-GUARD construct=IMPLICIT:signs")
 mut("c09-no-restore", "C09", IN, "  mju_copy(d->efc_force, save_efc_force, nefc);\n", "", "rule=R-SAVE-RESTORE")
+
+# ---- C30
+mut("c30-move-check", "C30", FW, "  mj_checkPos(m, d);\n  mj_checkVel(m, d);\n  mj_forward(m, d);\n  mj_checkAcc(m, d);", "  mj_checkPos(m, d);\n  mj_forward(m, d);\n  mj_checkVel(m, d);\n  mj_checkAcc(m, d);", "rule=R-MUSTPASS")
+mut("c30-no-autoreset-guard", "C30", FW, "      mj_warning(d, mjWARN_BADQVEL, i);\n      if (!mjDISABLED(mjDSBL_AUTORESET)) {\n        mj_resetData(m, d);\n      }", "      mj_warning(d, mjWARN_BADQVEL, i);\n      mj_resetData(m, d);", "rule=R-CHECK construct=mj_checkVel")
+mut("c30-wrong-warning", "C30", FW, "      mj_warning(d, mjWARN_BADQPOS, i);", "      mj_warning(d, mjWARN_BADQVEL, i);", "rule=R-CHECK construct=mj_checkPos")
+mut("c30-no-recount", "C30", FW, "      d->warning[mjWARN_BADQACC].number++;\n", "", "rule=R-CHECK construct=mj_checkAcc")
+mut("c30-isbad-oneside", "C30", "src/engine/engine_util_misc.c", "  return (x != x || x > mjMAXVAL || x < -mjMAXVAL);", "  return (x != x || x > mjMAXVAL);", "rule=R-FINITE")
+mut("c30-isbad-equiv-ok", "C30", "src/engine/engine_util_misc.c", "  return (x != x || x > mjMAXVAL || x < -mjMAXVAL);", "  return !(x <= mjMAXVAL && x >= -mjMAXVAL);", None)
+mut("c30-scan-from-1", "C30", FW, "  for (int i=0; i < nq; i++) {\n    if (mju_isBad(qpos[i])) {", "  for (int i=1; i < nq; i++) {\n    if (mju_isBad(qpos[i])) {", "rule=R-CHECK construct=mj_checkPos")
+# ---- C34
+NM = "src/engine/engine_name.c"
+mut("c34-wrong-count", "C34", NM, "      *padr = m->name_siteadr;\n      num = m->nsite;", "      *padr = m->name_siteadr;\n      num = m->ncam;", "rule=R-TABLE-NAME")
+mut("c34-swap-order", "C34", "src/user/user_model.cc", "  adr      = namelist(sites_, adr, m->name_siteadr, m->names, map_adr);\n  map_adr += mjLOAD_MULTIPLE * sites_.size();\n\n  adr      = namelist(cameras_, adr, m->name_camadr, m->names, map_adr);\n  map_adr += mjLOAD_MULTIPLE * cameras_.size();",
+    "  adr      = namelist(cameras_, adr, m->name_camadr, m->names, map_adr);\n  map_adr += mjLOAD_MULTIPLE * cameras_.size();\n\n  adr      = namelist(sites_, adr, m->name_siteadr, m->names, map_adr);\n  map_adr += mjLOAD_MULTIPLE * sites_.size();", "rule=R-WRITER-ORDER construct=order")
+mut("c34-id-bound", "C34", NM, "  if (id >= 0 && id < num && m->names[adr[id]]) {", "  if (id >= 0 && id <= num && m->names[adr[id]]) {", "rule=R-BOUNDS construct=mj_id2name")
+mut("c34-mapsize", "C34", IO, "nnumeric + ntext + ntuple + nkey + nplugin;", "nnumeric + ntext + ntuple + nkey;", "rule=R-MAPSIZE")
+# ---- C01
+mut("c01-static-counter", "C01", FW, "void mj_fwdVelocity(const mjModel* m, mjData* d) {\n  TM_START;", "void mj_fwdVelocity(const mjModel* m, mjData* d) {\n  static int ncalls = 0;\n  ncalls++;\n  TM_START;", "rule=R-GLOBAL construct=mj_fwdVelocity")
+mut("c01-static-const-ok", "C01", FW, "void mj_fwdVelocity(const mjModel* m, mjData* d) {\n  TM_START;", "void mj_fwdVelocity(const mjModel* m, mjData* d) {\n  static const int kTable[2] = {1, 2};\n  (void)kTable;\n  TM_START;", None)
+mut("c01-getenv", "C01", FW, "void mj_fwdVelocity(const mjModel* m, mjData* d) {\n  TM_START;", "void mj_fwdVelocity(const mjModel* m, mjData* d) {\n  if (getenv(\"MJ_SKIPVEL\")) return;\n  TM_START;", "rule=R-GLOBAL construct=mj_fwdVelocity")
+mut("c01-no-clear", "C01", ED, "  d->ncon = 0;\n  resetArena(d);\n  mj_clearEfc(d);", "  d->ncon = 0;\n  resetArena(d);", "rule=R-ARENA-STALE")
+# ---- C02
+mut("c02-arena-in-task", "C02", FW, "static void solveIslandTask(const mjModel* m, mjData* d, void* arg, int thread_id, int island) {", "static void solveIslandTask(const mjModel* m, mjData* d, void* arg, int thread_id, int island) {\n  (void)mj_arenaAllocByte(d, 8, 8);", "rule=R-TASK construct=solveIslandTask:solveIslandTask:arena")
+mut("c02-drop-tls", "C02", "src/engine/engine_collision_convex.c", "static mjTHREADLOCAL void* ccd_buffer = NULL;", "static void* ccd_buffer = NULL;", "rule=R-TASK")
+mut("c02-scalar-write", "C02", FW, "static void solveIslandTask(const mjModel* m, mjData* d, void* arg, int thread_id, int island) {", "static void solveIslandTask(const mjModel* m, mjData* d, void* arg, int thread_id, int island) {\n  d->nisland = d->nisland;", "rule=R-TASK construct=solveIslandTask:solveIslandTask:scalar")
+mut("c02-unlock-order", "C02", "src/engine/engine_thread.cc", "    d->threadlock = false;\n    mj_freeStack(d);", "    mj_freeStack(d);\n    d->threadlock = false;", "rule=R-DISPATCH construct=mju_dispatch:bracket")
+mut("c02-serial-skip0", "C02", "src/engine/engine_thread.cc", "    for (int i = 0; i < ntask; i++) {\n      func(m, d, arg, 0, i);", "    for (int i = 1; i < ntask; i++) {\n      func(m, d, arg, 0, i);", "rule=R-DISPATCH construct=mju_dispatch:serial-fallback")
 
 
 def _run_one(m):
